@@ -69,7 +69,8 @@ Upgrade(s, a) ==
 DaoTransfer(s, a) ==
   IF s.daoOwner # a.from THEN [s |-> s, ok |-> FALSE]
   ELSE IF a.amt < 0 \/ s.bal[DAO] < a.amt THEN [s |-> s, ok |-> FALSE]
-  ELSE [s |-> [s EXCEPT !.bal = [@ EXCEPT ![DAO] = @ - a.amt, ![a.to] = @ + a.amt]], ok |-> TRUE]
+  \* (a transfer addressed to the DAO account itself moves nothing)
+  ELSE [s |-> [s EXCEPT !.bal = IF a.to = DAO THEN @ ELSE [@ EXCEPT ![DAO] = @ - a.amt, ![a.to] = @ + a.amt]], ok |-> TRUE]
 
 DaoBurn(s, a) ==
   IF s.daoOwner # a.from THEN [s |-> s, ok |-> FALSE]
@@ -109,7 +110,7 @@ GTxChoices ==
   \cup {[T("changeparam", f) EXCEPT !.pk = IDao, !.val = "id", !.id = i] : f \in Users, i \in Users}
   \cup {[T("changeparam", f) EXCEPT !.pk = IUpg, !.val = "upg", !.idx = h] : f \in Users, h \in {1001, 1002}}
   \cup {[T("upgrade", f) EXCEPT !.idx = h] : f \in Users, h \in {0, 2001, 2002}}
-  \cup {[T("daotransfer", f) EXCEPT !.to = t, !.amt = x] : f \in Users, t \in Users, x \in Amts}
+  \cup {[T("daotransfer", f) EXCEPT !.to = t, !.amt = x] : f \in Users, t \in Users \cup {DAO}, x \in Amts}
   \cup {[T("daoburn", f) EXCEPT !.amt = x] : f \in Users, x \in Amts}
 
 GActs(s) ==
@@ -144,7 +145,7 @@ ParamChangeOnlyByOwner(pre, post, a) ==
 DaoOnlyByOwner(pre, post, a) ==
   post.bal[DAO] # pre.bal[DAO] =>
     /\ a.a = "Tx" /\ a.kind \in {"daotransfer", "daoburn"} /\ a.from = pre.daoOwner
-    /\ a.amt > 0 /\ a.amt <= pre.bal[DAO] /\ post.bal[DAO] = pre.bal[DAO] - a.amt
+    /\ a.amt > 0 /\ a.amt <= pre.bal[DAO] /\ post.bal[DAO] = pre.bal[DAO] - a.amt /\ a.to # DAO
     /\ (a.kind = "daoburn" => post.supply = pre.supply - a.amt)
     /\ (a.kind = "daotransfer" => post.supply = pre.supply)
 
